@@ -109,4 +109,30 @@ theorem reduced_cost_is_c_minus_STy (n : Net) (y : String → Rat) (i : Nat) (hi
 example : AuxM.demoNet.fba.rc (fun _ => 2) (.fwd 1) = 3 := by
   rw [(reduced_cost_is_c_minus_STy AuxM.demoNet (fun _ => 2) 1 (by decide)).1]; decide +kernel
 
+/-! ### certificates on the problems the builders produce
+
+`harness/auxcorr.py` asks the Lean driver for the dense form of the problem a builder produces (the same problem that was compared with the raw GLPK
+problem), lets the untrusted exact simplex propose a certificate and accepts it only through `Prob.certOpt` / `Prob.certInfeas`; GLPK's status and
+optimum for the captured problem are then compared with the certified answer. -/
+open AuxM in
+/-- **an accepted optimality certificate proves an optimum of the builder's problem**: the point it names is feasible for the problem — boxes, rows,
+every variable — and no feasible point is better in the problem's direction -/
+theorem certified_answer_is_optimum (p : Prob) (xs ys : List Rat) (h : p.certOpt xs ys = true) :
+    p.IsOpt (assignOf (p.vars.map (·.v)) xs) ∧ p.vars.map (fun w => assignOf (p.vars.map (·.v)) xs w.v) = xs := certOpt_isOpt p xs ys h
+
+open AuxM in
+/-- an accepted Farkas certificate proves that the builder's problem has no feasible point -/
+theorem certified_infeasible (p : Prob) (ys : List Rat) (h : p.certInfeas ys = true) : ¬ ∃ x, p.Feasible x := certInfeas_sound p ys h
+
+open AuxM in
+/-- chained with the whole-problem theorems: a certificate accepted on `Net.fba` names net fluxes that are optimal for the model -/
+theorem certified_fba_optimum (n : Net) (hp : n.Proper) (xs ys : List Rat) (h : n.fba.certOpt xs ys = true) :
+    n.Feasible (netOf (assignOf (n.fba.vars.map (·.v)) xs)) ∧
+    ∀ v, n.Feasible v → if n.dirMax then n.objVal v ≤ n.objVal (netOf (assignOf (n.fba.vars.map (·.v)) xs))
+                        else n.objVal (netOf (assignOf (n.fba.vars.map (·.v)) xs)) ≤ n.objVal v := by
+  obtain ⟨h1, _, h3⟩ := fba_optimum n hp _ (certOpt_isOpt n.fba xs ys h).1
+  exact ⟨h1, h3⟩
+
+example : AuxM.demoNet.fba.certOpt [2, 0, 2, 0] [-1] = true := by decide +kernel
+
 end C04
